@@ -23,4 +23,20 @@ def Cmp.eval {α} [LT α] [LE α] [DecidableEq α] [DecidableLT α] [DecidableLE
   | .ne => decide (a ≠ b)
   | .unknown => false
 
+/-- argument of a micro-op in a translated stats method: a literal, the method's parameter, or its
+two's complement (`^uint64(step-1)`, i.e. minus `step` modulo 2^64) -/
+inductive Val | const (n : Nat) | arg | negArg
+deriving DecidableEq, Repr
+
+/-- micro-ops of the stats primitives, produced by the translator in /verif/tools/facts -/
+inductive TInstr
+  | add (cell : String) (v : Val)        -- atomic add
+  | read (cell : String)                 -- atomic load
+  | set (cell : String) (v : Val)        -- atomic store of a known value
+  | setLocal (cell : String)             -- atomic store of a value computed earlier in the method
+  | swap (cell : String) (v : Val)       -- atomic swap
+  | rawRead (cell : String)              -- non-atomic load into the thread's register
+  | rawWrite (cell : String)             -- non-atomic store of (register + the method's argument)
+deriving DecidableEq, Repr
+
 end Zeno
